@@ -441,6 +441,11 @@ def check_c20(tier, seed):
     shutil.rmtree(wd, ignore_errors=True); os.makedirs(wd)
     run.cargo_build()
     thorough = tier == "thorough"
+    # Engine C in the background (it has to sit through one real poll interval): the whole binary, chain grows unnoticed
+    from . import e2e
+    from concurrent.futures import ThreadPoolExecutor as _TPE
+    _ex = _TPE(max_workers=1)
+    poll_future = _ex.submit(e2e.poll_check, seed, tier, wd)
     g, d, _ = tlc_plain("BlockWatcher.tla", "BlockWatcher.cfg", wd)
     # unbounded: the height invariant as an inductive invariant, discharged by Apalache (any height, any number of steps)
     apa = []
@@ -533,10 +538,16 @@ def check_c20(tier, seed):
         print(f"VIOLATION property=C20 replay={pth}")
     for (o, at) in drift[:3]:
         print(f"DRIFT: the real BlockWatcher took a step BlockWatcher.tla cannot explain (line {at} of {o})")
+    est = poll_future.result()
+    for n, (runno, text, rec) in enumerate(est["violations"][:2]):
+        pth = f"{REPLAYS}/C20_e2e{n}.json"
+        json.dump({"property": pid, "kind": "e2e", "what": text, "record": rec}, open(pth, "w"))
+        print(f"VIOLATION property=C20 replay={pth}")
+        bad.append((pth, 0, text))
     samples = [run_of(outs[0], 1)[:14], run_of(outs[-1], 1)[:14]]
     cov = {"states": d, "transitions": g, "traces_validated_against_impl": len(jobs), "samples": samples,
            "tlc_schedules_replayed": nsched, "random_schedules": len(jobs) - nsched, "concurrent_rounds_on_real_threads": mt_rounds,
-           "apalache_obligations_discharged": apa, "trace_lines_validated": nlines,
+           "apalache_obligations_discharged": apa, "trace_lines_validated": nlines, "real_binary_poll_interval_scenarios": est["runs"],
            "conformance": "drift" if drift else "accepted", "exhaustive": False,
            "rule": "BlockWatcher.tla: all interleavings of poll replies, failed polls, stale/repeated/ahead notifications and node "
                    "growth within the constants (exhaustive); real BlockWatcher: schedules sampled from every explored edge plus "
